@@ -201,7 +201,7 @@ SPEC_NEXT = r"""
 SPEC_BOA = r"""
     ensures
         (r is Ok) == (slot_after(*old(lhs), rhs, op) is Some), // [C06_C12_C16:op_assign_on_an_element_or_property_fails_exactly_when_the_operator_fails]
-        r is Ok ==> *final(lhs) == slot_after(*old(lhs), rhs, op)->0, // [C06_C12_C14_C16:op_assign_on_an_element_or_property_stores_old_value_op_rhs_and_plain_assign_stores_rhs_with_its_provenance]
+        r is Ok ==> *final(lhs) == slot_after(*old(lhs), rhs, op)->0, // [C06_C11_C12_C14_C16:op_assign_on_an_element_or_property_stores_old_value_op_rhs_and_plain_assign_stores_rhs_with_its_provenance]
         r is Err ==> *final(lhs) == *old(lhs), // [C06:failed_operator_leaves_the_slot_unchanged]
         shows_op_position(r, *old(lhs), rhs, op), // [C18:a_failing_op_assign_shows_the_position_of_the_operator_first]
         r matches Err(e) ==> located(e), // [C17:binding_errors_are_located]
